@@ -96,21 +96,30 @@ class Proxy(object):
             return target
         def call(*args, **kw):
             r = target(*args, **kw)
-            self._px_log.append(("%s.%s" % (self._px_name, a), list(args) + list(kw.values()), r, self._px_name, a))
+            self._px_log.append(("%s.%s" % (self._px_name, a), list(args) + list(kw.values()), r, "<proxy:%s>" % self._px_name, a))
             return r
         return call
     def __call__(self, *args, **kw):
         r = self._px_obj(*args, **kw)
-        self._px_log.append(("%s.__call__" % self._px_name, list(args) + list(kw.values()), r, self._px_name, "__call__"))
+        self._px_log.append(("%s.__call__" % self._px_name, list(args) + list(kw.values()), r, "<proxy:%s>" % self._px_name, "__call__"))
         return r
 
 
 class FunPatch:
     """replace module-level callables (np.linalg.inv, ...) by recording wrappers for the duration of the real run; only calls made
     from hierarc source files are recorded (libraries calling each other are invisible to PySem)"""
-    def __init__(self, specs, log):
-        self.specs, self.log, self.saved = specs, log, []
+    def __init__(self, specs, log, mspecs=()):
+        self.specs, self.log, self.saved, self.mspecs = specs, log, [], mspecs
     def __enter__(self):
+        for cname, owner, attr in self.mspecs:     # methods of hierarc classes that are NOT serialised for this property: replayed too
+            orig = owner.__dict__[attr]
+            self.saved.append((owner, attr, orig))
+            f0 = orig.__func__ if isinstance(orig, staticmethod) else orig
+            def mwrap(self_, *args, __orig=f0, __tag="%s.%s" % (cname, attr), __c=cname, __a=attr, __static=isinstance(orig, staticmethod), **kw):
+                r = __orig(*args, **kw) if __static else __orig(self_, *args, **kw)
+                self.log.append((__tag, list(args) + list(kw.values()), r, __c, __a))
+                return r
+            setattr(owner, attr, mwrap)
         for tag, owner, attr in self.specs:
             orig = getattr(owner, attr)
             self.saved.append((owner, attr, orig))
@@ -171,6 +180,19 @@ def build_fenv(items, enc_classes, extra_globals=()):
             gt.append("(%s, CFun %s)" % (q(fn), src_name(None, fn)))
         elif fn == "__init__":
             gt.append("(%s, CClass %s %s)" % (q(cls), q(cls), src_name(cls, fn)))
+    # module-level constants of the spec's modules (lists of names, numbers): looked up as zero-argument oracles
+    seen = set()
+    enc = Enc()
+    for mod in sorted({m for m, _, _ in items}):
+        try:
+            M = importlib.import_module(mod)
+        except Exception:
+            continue
+        for k, v in vars(M).items():
+            if k in seen or k.startswith("__") or not isinstance(v, (list, tuple, int, float, str)) or isinstance(v, bool): continue
+            if isinstance(v, (list, tuple)) and not all(isinstance(x, (str, int, float)) for x in v): continue
+            seen.add(k)
+            gt.append("(%s, COracle (fun _ _ w => Ok (%s, w)))" % (q(k), enc.val(v)))
     for k, v in CONSTS.items():
         gt.append("(%s, COracle (fun _ _ w => Ok (VNum (Fin %s), w)))" % (q(k), coq_real(v)))
     gt += list(extra_globals)
@@ -183,10 +205,10 @@ class NormalPatch:
     def __enter__(self):
         self.orig = np.random.normal
         def normal(loc=0.0, scale=1.0, size=None):
-            if size is not None: raise RuntimeError("corr_pysem: sized normal draw not modelled")
+            if size is not None and size != 1: raise RuntimeError("corr_pysem: sized normal draw not modelled")
             if self.k >= len(self.zs): raise RuntimeError("corr_pysem: variate stream exhausted")
             z = self.zs[self.k]; self.k += 1
-            return loc + scale * z
+            return loc + scale * z if size is None else np.array([loc + scale * z])
         np.random.normal = normal
         return self
     def __exit__(self, *a):
@@ -203,7 +225,7 @@ def make_lemma(idx, case, items):
     zs = case.get("draws", [])
     calls = case.get("calls_log")
     if calls is None: calls = []
-    with NormalPatch(zs) as npatch, FunPatch(case.get("patch", []), calls):
+    with NormalPatch(zs) as npatch, FunPatch(case.get("patch", []), calls, case.get("patch_methods", [])):
         try:
             f = getattr(obj, fn) if obj is not None else case["callable"]
             out = f(*case.get("args", []), **case.get("kwargs", {}))
@@ -226,7 +248,7 @@ def make_lemma(idx, case, items):
         if d["pname"] is None:
             gt_case.append("(%s, replay %s [%s])" % (q(tag), q(tag), "; ".join(d["res"])))
         else:
-            mt_case.setdefault("<proxy:%s>" % d["pname"], []).append("(%s, replay_m %s [%s])" % (q(d["meth"]), q(tag), "; ".join(d["res"])))
+            mt_case.setdefault(d["pname"], []).append("(%s, replay_m %s [%s])" % (q(d["meth"]), q(tag), "; ".join(d["res"])))
     genv = "(mk_fenv ([%s] ++ MT) ([%s] ++ GT))" % ("; ".join("(%s, [%s])" % (q(c), "; ".join(r)) for c, r in mt_case.items()), "; ".join(gt_case))
     mk = "(fun ds => call %s %d (CFun %s) %s %s %s (World (stream [%s]) 0 [] ds []))" % (
         genv, case.get("fuel", 300), src_name(cls, fn), selfv, args, kws, "; ".join(coq_real(z) for z in zs))
